@@ -703,6 +703,12 @@ func (vc *VC) havocAll(st *State, why string) {
 		if name == "$Trace" || name == "$TraceArgs" || name == "$TraceLen" {
 			continue // the ghost trace of this function's own calls is only ever appended to
 		}
+		if strings.HasPrefix(name, "G[") {
+			// A-globals-immutable: package-level variables are not reassigned after initialisation (an F obligation of
+			// this framework for /repo's packages - the fscan checker - and an assumption for dependencies); the
+			// memory they point to is still havoc'd below
+			continue
+		}
 		if name == "$nextArr" {
 			nh := vc.fresh(name, h.Sort)
 			vc.assume(Le(h, nh))
@@ -713,7 +719,7 @@ func (vc *VC) havocAll(st *State, why string) {
 	}
 	// heaps not yet materialised are unknown too: materialise all known names
 	for name, s := range vc.heapSorts {
-		if strings.HasPrefix(name, "$Trace") {
+		if strings.HasPrefix(name, "$Trace") || strings.HasPrefix(name, "G[") {
 			continue
 		}
 		if _, ok := st.heaps[name]; !ok {
